@@ -451,7 +451,10 @@ def main(prop_id, tier, seed, only_sub=None):
     # ---- 5. replay files, evidence, exit code -----------------------------
     seen = set()
     vio_lines = []
-    rep_dir = os.path.join(VERIF_DIR, "replays", prop_id)
+    # PV_OUT_DIR: scratch output directory for development runs against a modified copy of the repository
+    # (seeded-change sweeps), so that they never overwrite the evidence of the registered checks
+    out_root = os.environ.get("PV_OUT_DIR") or VERIF_DIR
+    rep_dir = os.path.join(out_root, "replays", prop_id)
     for sub_name, case, kind, details in violations:
         sig = (sub_name, kind, stable_hash(case))
         if sig in seen:
@@ -499,9 +502,9 @@ def main(prop_id, tier, seed, only_sub=None):
         "wall_s": round(wall, 2),
         "violations": len(vio_lines),
     }
-    os.makedirs(os.path.join(VERIF_DIR, "evidence"), exist_ok=True)
+    os.makedirs(os.path.join(out_root, "evidence"), exist_ok=True)
     if not only_sub:
-        with open(os.path.join(VERIF_DIR, "evidence", "%s.json" % prop_id), "w") as f:
+        with open(os.path.join(out_root, "evidence", "%s.json" % prop_id), "w") as f:
             json.dump(evidence, f, indent=1, sort_keys=True, default=repr)
 
     print("%s tier=%s seed=%d: %d cases (%d distinct non-trivial), %d regress, "
